@@ -328,12 +328,12 @@ PROPS["C17"] = {
 }
 
 PROPS["C01"] = {
-    "modules": ["SlogModel.Props.C01"],
+    "modules": ["SlogModel.Props.C01", "SlogModel.Lemmas.ClientRefine"],
     "components": [("agent-c01", 100, 800), ("client", 300, 5000), ("buffer", 120, 2000)],
     "rule": 'one case = one end-to-end run of the real agent in process (run.NewLoaderFromConfigFile -> StartOrchestrator -> LaunchInputs: TCP syslog input, extractions, transforms incl. a 100% drop filter, byKeySet orchestration, hybrid buffer, Fluentd Forward output in one of the three message modes) against a scripted fake upstream (per connection attempt: close at once / reset after k chunks / never ACK / late ACK / unknown-id ACK / healthy), 1-3 generations of graceful stop + restart on one queue directory, 1-3 client connections x 10-90 stamped records over 1-3 key sets with malformed and filtered records mixed in, stop after 0-100 ms, upstream session age 0/20/50/150 ms; all timeouts scaled to 10 ms - 2 s; the last generation ends with a healthy upstream; distinct by script; all non-trivial',
-    "level_text": 'Theorems over every action sequence of E2E.step (chunk-level system of one pipeline and output across generations; each action is the contract proved for a component: C11 packing, C03 buffer, C02 client, C04 persistence): C01_every_record_accounted (each record read is in the open chunk or in exactly one chunk, which is in exactly one of queued / in flight / acknowledged / counted dropped / on disk), C01_at_rest (while stopped: acknowledged, on disk or counted dropped - nothing only in memory), C01_drained (after a healthy drain: acknowledged or counted dropped), C01_chunk_in_one_place. Tie: the end-to-end harness evaluates the conclusion of C01_drained / C01_at_rest and byte identity of every delivered message on real runs; the component models are tied by C02 / C03 / C04 / C11.',
-    "level_note": "Trusted: Lean kernel + 3 standard axioms; the abstraction of each component to its proved contract (assume-guarantee composition is by reading, not by a refinement proof between Client.step / Buffer.step and E2E.step); sampled end-to-end runs. PARTIAL: liveness ('eventually acknowledged') is the hypothesis of C01_drained (the harness waits for the drain); multi-output configurations are independent copies (C12 harness).",
-    "partial": 'composition by contracts, not a mechanised refinement; liveness assumed as the drained state',
+    "level_text": 'Theorems over every action sequence of E2E.step (chunk-level system of one pipeline and output across generations; each action is the contract proved for a component: C11 packing, C03 buffer, C02 client, C04 persistence): C01_every_record_accounted (each record read is in the open chunk or in exactly one chunk, which is in exactly one of queued / in flight / acknowledged / counted dropped / on disk), C01_at_rest (while stopped: acknowledged, on disk or counted dropped - nothing only in memory), C01_drained (after a healthy drain: acknowledged or counted dropped), C01_chunk_in_one_place. Refinement (Lemmas/ClientRefine.lean): C01_client_refines_e2e - for every run of the client transition system Client.step (every interleaving of sender, acknowledger and worker loop, every outcome of connect / send / ACK read, every stop moment) the chunk-level view of the client state (waiting = queue, held by the session = in flight, confirmations = acknowledged, handed back + never taken = disk) moves exactly as E2E.step does, each client action being invisible or exactly one of take / ack / connFail / stop (sim_step, sim_run), so the client-side contracts of E2E.step are theorems about Client.step; C01_at_rest_through_client (after any earlier history and any client run up to OnFinished every record read is in a chunk acknowledged, handed back or never taken, or counted dropped). Tie: the end-to-end harness evaluates the conclusion of C01_drained / C01_at_rest and byte identity of every delivered message on real runs; the component models are tied by C02 / C03 / C04 / C11.',
+    "level_note": "Trusted: Lean kernel + 3 standard axioms; the abstraction of the packer and the buffer to their proved contracts (the client side of E2E.step is a mechanised refinement of Client.step; the buffer side - accept / drop / save at stop / recover at start - is composed by reading C03's theorems, not by a refinement proof between Buffer.step and E2E.step; in the refinement the client is given the chunks queued for it up front, as Client.init does); sampled end-to-end runs. PARTIAL: liveness ('eventually acknowledged') is the hypothesis of C01_drained (the harness waits for the drain); multi-output configurations are independent copies (C12 harness).",
+    "partial": 'client side refined mechanically, buffer / packer side composed by contracts; liveness assumed as the drained state',
     "assumptions": ["the composition of component contracts in E2E.step matches how the components are wired (read from orchestrate/, buffer/, output/)"],
 }
 
@@ -361,9 +361,9 @@ PROPS["C19"] = {
     "modules": ["SlogModel.Props.C19"],
     "components": [("agent-c19", 100, 800), ("buffer", 150, 2500), ("route", 1500, 30000), ("client", 300, 5000)],
     "rule": 'one case = one end-to-end run of the real agent in process (run.NewLoaderFromConfigFile -> StartOrchestrator -> LaunchInputs: TCP syslog input, extractions, transforms incl. a 100% drop filter, byKeySet orchestration, hybrid buffer, Fluentd Forward output in one of the three message modes) against a scripted fake upstream (per connection attempt: close at once / reset after k chunks / never ACK / late ACK / unknown-id ACK / healthy), 1-3 generations of graceful stop + restart on one queue directory, 1-3 client connections x 10-90 stamped records over 1-3 key sets with malformed and filtered records mixed in, stop after 0-100 ms, upstream session age 0/20/50/150 ms; all timeouts scaled to 10 ms - 2 s; the last generation ends with a healthy upstream; distinct by script; all non-trivial',
-    "level_text": "C19_buffer_balance (pending = inputs - consumed - leftover - dropped in every reachable state of the buffer model), C19_dropped_counts_drops / C19_consumed_counts_confirms (the counters are exactly the drops / confirmations the conservation theorem speaks of), C19_shutdown_balance (accepted + recovered = consumed + dropped + kept), C19_input_counted_once (from C09), two facts (client metric call sites, pending gauge in every On* callback). Tie: C03's state comparison covers every buffer counter after every operation; the end-to-end harness compares the summed counters of real runs with its own event counts (lines sent = input passed + dropped, malformed = input dropped, input passed = pipeline passed + dropped, filtered = pipeline dropped, consumed = distinct chunks acknowledged by the upstream = output acknowledged).",
-    "level_note": 'Trusted: Lean kernel + 3 standard axioms. PARTIAL: forwarded / acknowledged counters and label attribution are tied by facts and by the end-to-end comparison, not modelled.',
-    "partial": 'client-side and labelled counters not modelled',
+    "level_text": "C19_buffer_balance (pending = inputs - consumed - leftover - dropped in every reachable state of the buffer model), C19_dropped_counts_drops / C19_consumed_counts_confirms (the counters are exactly the drops / confirmations the conservation theorem speaks of), C19_shutdown_balance (accepted + recovered = consumed + dropped + kept), C19_input_counted_once (from C09); over every run of the client transition system: C19_client_acknowledged_counts_confirmations (acknowledged_chunks_total = number of chunks reported delivered, all distinct), C19_client_acknowledged_le_forwarded (every acknowledged chunk was counted as forwarded before; acknowledged <= forwarded, forwarded = complete transmissions incl. retransmissions), C19_client_balance (taken = acknowledged + handed back + still held); two facts (client metric call sites, pending gauge in every On* callback). Tie: C03's state comparison covers every buffer counter after every operation; the client component compares the real client's forwarded / acknowledged counters with Client.forwardedN / acknowledgedN of the accepted run (client tracem) and with what the scripted upstream received; the end-to-end harness compares the summed counters of real runs with its own event counts (lines sent = input passed + dropped, malformed = input dropped, input passed = pipeline passed + dropped, filtered = pipeline dropped, consumed = distinct chunks acknowledged by the upstream = output acknowledged).",
+    "level_note": 'Trusted: Lean kernel + 3 standard axioms. PARTIAL: byte counters of the client and label attribution are tied by facts, the byte-exact client oracle and the end-to-end comparison, not modelled.',
+    "partial": 'client byte counters and labelled counters not modelled (chunk counters are)',
     "assumptions": ["the composition of component contracts in E2E.step matches how the components are wired (read from orchestrate/, buffer/, output/)"],
 }
 
